@@ -2,6 +2,7 @@ import MypyVerif.Proofs.LayoutSide
 import MypyVerif.Proofs.LayoutFS
 import MypyVerif.Proofs.LayoutDir
 import MypyVerif.Proofs.LayoutPkg
+import MypyVerif.Proofs.LayoutSort
 import MypyVerif.Gen.LayoutConsts
 /-!
 # C18 — files and module names map to each other consistently
@@ -347,6 +348,45 @@ example : dirCellOK fsGood oGood 8 (pth ["w", "r", "p"]) (String.toList "m.py") 
                 S.any (fun s => s.path = pth ["w", "r", "p", "m.pyi"] && s.module = pth ["p", "m"])
      | .error _ => false) = true :=
   ⟨by decide, ⟨by decide, by decide, by decide, by decide, by decide⟩, by decide⟩
+
+/-! ## the two implementations prefer the same file
+
+`find_sources_in_dir` decides by sort order (`keyfunc`) and the `seen` stems which claimant of a stem is listed;
+`_find_module` decides by the order of its probes.  Both orders are: directory (package) before module, `.pyi`
+before `.py`. -/
+
+/-- **Listing side, stub over source.**  With `D/st.pyi` present and no directory `D/st`, `find_sources_in_dir(D)`
+    lists `D/st.pyi` and does not list `D/st.py`. -/
+theorem dir_prefers_stub (fs : FS) (wf : fs.WF) (o : Opts) (k : Nat) (D : Path) (st : Name) (S : List Src)
+    (hS : findSourcesInDir fs o (k + 1) D = .ok S) (hid : isIdent st = true)
+    (hpyi : fs.isFile (D ++ [st ++ extPyi]) = true) (hskip : skipName (st ++ extPyi) = false)
+    (hnodir : fs.isDir (D ++ [st]) = false) :
+    (∃ s ∈ S, s.path = D ++ [st ++ extPyi]) ∧ ∀ s ∈ S, s.path ≠ D ++ [st ++ extPy] :=
+  dir_stub_wins fs o wf hS (isIdent_ne_nil hid) (isIdent_no_dot hid) hpyi hskip hnodir
+
+/-- **Listing side, directory over module.**  When the directory `D/st` yields sources, neither `D/st.pyi` nor
+    `D/st.py` is listed (package over module when `D/st` is a regular package; the F10 cell when it is not). -/
+theorem dir_prefers_directory (fs : FS) (wf : fs.WF) (o : Opts) (k : Nat) (D : Path) (st : Name) (S : List Src)
+    (s0 : Src) (ss : List Src)
+    (hS : findSourcesInDir fs o (k + 1) D = .ok S) (hid : isIdent st = true) (hskip : skipName st = false)
+    (hdir : fs.isDir (D ++ [st]) = true) (hyield : findSourcesInDir fs o k (D ++ [st]) = .ok (s0 :: ss)) :
+    ∀ s ∈ S, s.path ≠ D ++ [st ++ extPyi] ∧ s.path ≠ D ++ [st ++ extPy] :=
+  dir_package_wins fs o wf hS (isIdent_ne_nil hid) (isIdent_no_dot hid) hskip hdir hyield
+
+/-- **Lookup side.**  In a candidate directory `_find_module` returns the first existing file in the fixed order
+    `x-stubs/__init__.pyi`, `x/__init__.pyi`, `x/__init__.py`, `x.pyi`, `x.py`: package before module, stub before
+    source — the same preferences as the listing side. -/
+theorem find_prefers (fs : FS) (ns : Bool) (bd : Path) (x : Name) (nlev : Nat) (g : Path) (hx : x ≠ sInit)
+    (h : scanDir fs ns bd x nlev = .found g) :
+    ∃ pre post, [bd ++ [x ++ sStubs, initPyi], bd ++ [x, initPyi], bd ++ [x, initPy], bd ++ [x ++ extPyi],
+        bd ++ [x ++ extPy]] = pre ++ g :: post ∧ ∀ p ∈ pre, fs.isFile p = false :=
+  scanDir_found_first fs hx h
+
+/-- non-vacuity: in the ordinary tree `p/m.pyi` shadows `p/m.py` in the listing and in the lookup alike -/
+example : (match findSourcesInDir fsGood oGood 8 (pth ["w", "r", "p"]) with
+     | .ok S => S.any (fun s => s.path = pth ["w", "r", "p", "m.pyi"]) && S.all (fun s => s.path != pth ["w", "r", "p", "m.py"])
+     | .error _ => false) = true ∧
+    findModule fsGood true [pth ["w", "r"]] (pth ["p", "m"]) = some (pth ["w", "r", "p", "m.pyi"]) := by decide
 
 /-! ## naming the package with `-p` -/
 
